@@ -156,7 +156,8 @@ def excel_rows(source_path, sheet=1):
 
 def _raise_delimited_data_format_error(delimited_path, reader, error):
     location = errors.Location(delimited_path)
-    line_number = reader.line_num
+    # ``line_num`` counts the lines read so far including the broken one, the location starts counting at 0.
+    line_number = reader.line_num - 1
     if line_number > 0:
         location.advance_line(line_number)
     raise errors.DataFormatError("cannot parse delimited file: %s" % error, location)
